@@ -3,7 +3,8 @@
    table writes of the trace-class / sampler decoders along the stream); tie: end-to-end correspondence of
    tools/props/C14.py (dump -> events -> pairing -> tables -> lines, for all 64 switch settings). *)
 From Coq Require Import String NArith List Bool.
-From Kd Require Import theories.Base theories.Printers theories.Container theories.DecoderDSL theories.Format theories.FormatLog.
+From Kd Require Import theories.Base theories.Printers theories.Container theories.DecoderDSL theories.Format theories.FormatLog
+  theories.FormatIR gen.GenFormat theories.FormatRefine.
 Import ListNotations.
 Open Scope N_scope.
 
@@ -79,3 +80,22 @@ Example c14_nontrivial :
   trace_lines kind (mkF false false false false true false) (mkTs tb0 []) [(w1, s2b "a"); (w2, s2b "b"); (w3, s2b "c")]
   = [ljust 34 (s2b "launchd(1)") ++ s2b "a"; ljust 34 (s2b "launchd(1)") ++ s2b "b"; ljust 34 (s2b "Safari(55)") ++ s2b "c"].
 Proof. vm_compute. reflexivity. Qed.
+
+(* the code refines the model: the columns of every line builder as tools/translate/tr_format.py reads them off the f-strings
+   of the current source (switch, content, alignment and width of the format spec, literal text after the field; the widths,
+   separators and colour names of the log line; the two shapes of the process column; the frame-line format) render to
+   exactly the lines of the model above, for every setting of the switches and every event / trace / callstack / log record *)
+Theorem c14_code_event_line : forall c codes tb e, render_cols c codes tb e gen_kevent_cols = kevent_line c codes tb e.
+Proof. exact kevent_code_refines. Qed.
+Theorem c14_code_trace_line : forall c tb ts tid body,
+  render_cols c (fun _ => None) tb (mkFe ts tid 0 0 []) gen_trace_cols ++ body = trace_line c tb ts tid body.
+Proof. exact trace_code_refines. Qed.
+Theorem c14_code_callstack_line : forall c tb ts tid fs,
+  render_cols c (fun _ => None) tb (mkFe ts tid 0 0 []) gen_callstack_cols ++ render_frames gen_frame 0 fs
+  = callstack_line c tb ts tid fs.
+Proof. exact callstack_code_refines. Qed.
+Theorem c14_code_log_line : forall c color tb tstext tid hp msg,
+  render_log gen_log c color tb tstext tid hp msg = log_line c color tb tstext tid hp msg.
+Proof. exact log_code_refines. Qed.
+Theorem c14_code_process_column : forall tb tid, render_process gen_process tb tid = format_process tb tid.
+Proof. exact process_code_refines. Qed.
